@@ -233,6 +233,64 @@ fn run_case(ctx: &Ctx, case: &str) -> String {
                 Err(_) => "panic".into(),
             }
         }
+        ["N", mapkind, ncols, rest @ ..] => {
+            let ncols = usize::from_str_radix(ncols, 16).unwrap_or(usize::MAX);
+            if rest.len() < 2 * ncols + 1 {
+                return "error bad-case".into();
+            }
+            let hexname = |h: &str| unhex(h).ok().and_then(|b| String::from_utf8(b).ok());
+            let mut specs = vec![];
+            for (i, p) in rest[..2 * ncols].chunks(2).enumerate() {
+                match (hexname(p[0]), type_of_str(p[1])) {
+                    (Some(n), Ok(ty)) => specs.push(ColumnSpec::owned(n, ty, TableSpec::owned("ks".into(), "tbl".into()))),
+                    _ => return format!("error bad-column:{}", i),
+                }
+            }
+            let vals = &rest[2 * ncols + 1..];
+            if vals.len() % 3 != 0 {
+                return "error bad-case".into();
+            }
+            let mut entries: Vec<(String, Box<dyn SerializeValue>)> = vec![];
+            for p in vals.chunks(3) {
+                let key = match hexname(p[0]) {
+                    Some(k) => k,
+                    None => return "error bad-key".into(),
+                };
+                let e = match ctx.ser_entry(p[1]) {
+                    Ok(e) => e,
+                    Err(x) => return x,
+                };
+                let kv = match kv_of_str(p[2]) {
+                    Ok(k) => k,
+                    Err(x) => return format!("error bad-value:{}", x.replace(' ', "_")),
+                };
+                match (e.boxed)(&kv) {
+                    Some(b) => entries.push((key, b)),
+                    None => return "error not-buildable".into(),
+                }
+            }
+            let ctxr = RowSerializationContext::from_specs(&specs);
+            let keys: Vec<String> = entries.iter().map(|(k, _)| k.clone()).collect();
+            let r = catch(AssertUnwindSafe(|| match *mapkind {
+                "bt" => SerializedValues::from_serializable(&ctxr, &entries.into_iter().collect::<std::collections::BTreeMap<String, _>>()),
+                "ht" => SerializedValues::from_serializable(&ctxr, &entries.into_iter().collect::<HashMap<String, _>>()),
+                "bs" => {
+                    let m: std::collections::BTreeMap<&str, Box<dyn SerializeValue>> =
+                        keys.iter().map(|k| k.as_str()).zip(entries.into_iter().map(|(_, v)| v)).collect();
+                    SerializedValues::from_serializable(&ctxr, &m)
+                }
+                _ => {
+                    let m: HashMap<&str, Box<dyn SerializeValue>> =
+                        keys.iter().map(|k| k.as_str()).zip(entries.into_iter().map(|(_, v)| v)).collect();
+                    SerializedValues::from_serializable(&ctxr, &m)
+                }
+            }));
+            match r {
+                Ok(Ok(sv)) => token("ok", &sv),
+                Ok(Err(e)) => format!("err:{}", row_leaf(&e)),
+                Err(_) => "panic".into(),
+            }
+        }
         ["C", parts @ ..] if !parts.is_empty() => {
             let mut plan = vec![];
             for p in parts {
@@ -843,6 +901,21 @@ fn main() {
               "X ffff Vec[i32] L(int) seq[{int:1},{int:2}] Tup[i32,String] T(int;int) tup[{int:1},{text:61}]"] {
         emit(&mut out, c.to_string());
     }
+    // 5b. rows bound by name: the four map types; another key order, a missing value, unknown keys
+    //     (the lexicographically first is reported), a value that does not serialise, a repeated column name
+    for k in ["bt", "bs", "ht", "hs"] {
+        for c in ["2 62 int 61 text 2 61 String {text:78} 62 Opt[i32] null",
+                  "2 62 int 61 text 3 61 String {text:78} 62 Opt[i32] null 63 i32 {int:1}",
+                  "2 62 int 61 text 4 61 String {text:78} 7a62 i32 {int:1} 62 Opt[i32] null 4161 i32 {int:1}",
+                  "2 62 int 61 text 1 61 String {text:78}",
+                  "2 62 int 61 text 2 62 String {text:78} 61 String {text:78}",
+                  "2 62 int 61 text 2 61 Vec[CqlValue] seq[{int:1},{text:61}] 62 i32 {int:1}",
+                  "3 61 int 62 L(int) 61 int 2 61 i32 {int:7} 62 Vec[CqlValue] seq[{int:1},{text:61}]",
+                  "2 61 int 61 text 1 61 i32 {int:7}",
+                  "0 0", "0 1 61 i32 {int:1}", "1 61 V(int;2) 1 61 Vec[Opt[i32]] seq[w[{int:7}],null]"] {
+            emit(&mut out, format!("N {} {}", k, c));
+        }
+    }
     // 6. value counts that pass through a RowWriter (from_closure): cells and appended rows
     for c in ["C c10000", "C a9c40 a9c40", "C cffff", "C cffff c1", "C affff c1", "C c8000 a8000", "C c7fff a8000", "C c0", "C c3 a2",
               "C affff affff", "C a1 cffff", "C c10001", "C a8000 a8000 a8000"] {
@@ -934,6 +1007,46 @@ fn main() {
                     continue;
                 }
                 format!("A {}", ops.join(" "))
+            }
+            // rows bound by name: BTreeMap / HashMap<String | &str, _>
+            90..=94 => {
+                let n = g.r.below(6) as usize;
+                let mut cols: Vec<(String, Ty)> = vec![];
+                let mut kvs: Vec<(String, String)> = vec![];
+                for i in 0..n {
+                    let h = g.r.bool();
+                    let (c, t, v) = if g.r.chance(1, 10) { g.bad_op() } else { g.good_op(h) };
+                    // mostly distinct names, in an order that is neither the column nor the key order; sometimes a repeated name
+                    let name = if i > 0 && g.r.chance(1, 12) { cols[0].0.clone() } else { format!("{}{}", (b'a' + g.r.below(26) as u8) as char, i) };
+                    if !cols.iter().any(|(n, _)| *n == name) {
+                        kvs.push((name.clone(), format!("{} {}", c, v.show())));
+                    }
+                    cols.push((name, t));
+                }
+                match g.r.below(10) {
+                    0 if !kvs.is_empty() => {
+                        let i = g.r.below(kvs.len() as u64) as usize;
+                        kvs.remove(i); // a column without a value
+                    }
+                    1 => kvs.push(("zz".into(), "i32 {int:1}".into())), // a key that names no column
+                    2 => {
+                        // two unknown keys: the lexicographically first is reported
+                        kvs.push(("zb".into(), "i32 {int:1}".into()));
+                        kvs.push(("Aa".into(), "String {text:61}".into()));
+                    }
+                    _ => {}
+                }
+                g.r.shuffle(&mut kvs);
+                let mut parts = vec![format!("N {} {:x}", g.r.pick(&["bt", "bs", "ht", "hs"]), cols.len())];
+                for (n, t) in &cols {
+                    parts.push(hex_bytes(n.as_bytes()));
+                    parts.push(s_type(t));
+                }
+                parts.push(format!("{:x}", kvs.len()));
+                for (k, cv) in &kvs {
+                    parts.push(format!("{} {}", hex_bytes(k.as_bytes()), cv));
+                }
+                parts.join(" ")
             }
             // rows
             _ => {
